@@ -6,21 +6,8 @@
 //! Lines starting with `!` report a direct property violation of the implementation
 //! (independent of the model); lines starting with `#` are statistics.
 
-mod suite;
-mod val;
-mod zoo_gen;
-mod mutate;
-mod schemagen;
-mod schemaread;
-mod intro;
-mod iofault;
-mod crypt;
-mod abi;
-mod abicall;
-mod abitraits;
-mod abiuse;
-mod extras;
 
+use sfv_harness::{suite, val, zoo_gen, mutate, schemagen, schemaread, intro, iofault, crypt, abi, abicall, abitraits, abiuse, extras};
 use std::collections::BTreeMap;
 use std::io::Write;
 use suite::*;
@@ -195,10 +182,19 @@ fn main() {
             }
             writeln!(out, "#stat smem-cases {}", n).unwrap();
         }
-        // C09/C10: calls between interface versions of the evolution families
-        "abicall" => {
+        // C09/C10: calls between interface versions of the evolution families; `plugin`: the implementation side is
+        // a separately linked shared library (plugins/v<j>) reached through `load_shared_library`
+        "abicall" | "plugin" => {
             let mut stats: BTreeMap<String, u64> = BTreeMap::new();
-            let pairs = zoo_gen::abi_pairs();
+            let via_plugin = a.cmd == "plugin";
+            let pairs = if via_plugin { zoo_gen::plugin_pairs() } else { zoo_gen::abi_pairs() };
+            if via_plugin {
+                for l in isolated(|| abicall::plugin_probes(a.seed).join("\n")).split('\n') {
+                    if !l.is_empty() {
+                        writeln!(out, "{}", l).unwrap();
+                    }
+                }
+            }
             for p in pairs.iter() {
                 if let Some(f) = &a.filter {
                     if !p.fam.contains(f.as_str()) {
@@ -209,9 +205,15 @@ fn main() {
                 let seed = name_seed(a.seed, p.fam, (p.i * 16 + p.j) as u64);
                 let cases = a.cases;
                 let run = p.run;
+                let j = p.j;
                 let report = isolated(|| {
                     let mut r = Rng::new(seed);
                     let mut lines = Vec::new();
+                    if via_plugin {
+                        if let Err(e) = abicall::use_plugin_observer(Some(j)) {
+                            return format!("!C09 plugin-does-not-load impl={} got={}", j, e.replace(' ', "_"));
+                        }
+                    }
                     for _ in 0..cases {
                         lines.extend(run(&mut r));
                     }
@@ -294,6 +296,22 @@ fn main() {
                 let mut r = Rng::new(name_seed(a.seed, "big", 14));
                 let lines = crypt::big_cases(&mut r, if a.size > 20 { 4 } else { 2 }, true);
                 emit(&mut out, lines, &mut stats);
+            }
+            for (k, v) in stats {
+                writeln!(out, "#stat {} {}", k, v).unwrap();
+            }
+        }
+        // C14: `CryptoWriter` driven by write/flush programs: frame structure vs the model, tamper probes
+        "cwprog" => {
+            let mut stats: BTreeMap<String, u64> = BTreeMap::new();
+            let mut r = Rng::new(name_seed(a.seed, "cwprog", 15));
+            for l in crypt::cw_cases(&mut r, a.cases) {
+                if let Some(k) = l.strip_prefix("#stat ") {
+                    let (k, v) = k.rsplit_once(' ').unwrap();
+                    *stats.entry(k.to_string()).or_default() += v.parse::<u64>().unwrap();
+                } else {
+                    writeln!(out, "{}", l).unwrap();
+                }
             }
             for (k, v) in stats {
                 writeln!(out, "#stat {} {}", k, v).unwrap();
@@ -745,7 +763,7 @@ fn main() {
                         // the model's generic reader on the same schema and bytes
                         writeln!(out, "(parse {} {})\t{}", hex(&sb), hex(&bytes), got).unwrap();
                         *stats.entry(format!("parse-{}", got.split(|c| c == ' ' || c == ')').next().unwrap_or(""))).or_default() += 1;
-                        if v == e.current() && !(got.starts_with("(ok ") && got.ends_with(" 0)")) {
+                        if (v == e.current() || !e.tags.contains(&"convert")) && !(got.starts_with("(ok ") && got.ends_with(" 0)")) {
                             writeln!(out, "!C12 schema-does-not-describe-bytes type={} ver={} bytes={} reader={}", e.name, v, hex(&bytes), got).unwrap();
                         }
                     }
